@@ -1,7 +1,209 @@
-import PonyVerif.Model.RepRead
+/-
+  C21 — repeated reads in a session return the same value or fail loudly.  Property theorems only.
+
+  Model: PonyVerif/Model/RepRead.lean.  One reading session; before EVERY reader operation the adversary installs an
+  ARBITRARY committed database (`run` takes a list of (database, operation) pairs).  `guarded = true` is the code as it
+  is now (`Set.db_reverse_remove` with the phantom check of fix 6b92706), `guarded = false` the code before it.
+-/
+import PonyVerif.Lemmas.RepRead
 namespace PonyVerif.Props.C21
 open PonyVerif.Model.RepRead
 
-theorem C21_run_nil (cfg : Cfg) (g : Bool) (s : Sess) : run cfg g s [] = (s, []) := rfl
+/-- **read bits freeze values** (any state, any database, any operation, both code variants, also when the operation
+    raises): an instance in the identity map stays there, a set read bit stays set and the `_vals_` entry under it does
+    not change -/
+theorem C21_step_frozen (cfg : Cfg) (g : Bool) (s : Sess) (db : Db) (op : Op) (c : Nat) (a : Attr)
+    (hp : (s.c c).present = true) (hr : (s.c c).rbits a = true) :
+    ((exec cfg g s db op).1.c c).present = true ∧ ((exec cfg g s db op).1.c c).rbits a = true ∧
+    ((exec cfg g s db op).1.c c).vals a = (s.c c).vals a := by
+  obtain ⟨h1, h2⟩ := exec_frozen cfg g s db op c hp
+  exact ⟨h1, h2 a hr⟩
+
+/-- a successful attribute read leaves the value in `_vals_` and, unless the attribute is volatile, sets its read bit -/
+theorem C21_read_observes (cfg : Cfg) (g : Bool) (s s1 : Sess) (db : Db) (c : Nat) (a : Attr) (v : Val)
+    (h : exec cfg g s db (.readAttr c a) = (s1, .val v)) :
+    (s1.c c).present = true ∧ (s1.c c).vals a = some v ∧ (cfg.volatile a = false → (s1.c c).rbits a = true) := by
+  have hs := (readCore_spec cfg g s db c a).2.1
+  simp only [exec] at h
+  split at h
+  · simp at h
+  · rename_i s2 w heq
+    simp only [Prod.mk.injEq, Res.val.injEq] at h
+    obtain ⟨rfl, rfl⟩ := h
+    have := hs w (by rw [heq])
+    rw [heq] at this
+    exact this
+
+/-- **C21, attributes** (all histories, all adversary choices): once `obj.attr` of a non-volatile attribute returned `v`,
+    after ANY further operations of the session interleaved with ANY committed changes, reading it again returns `v`
+    (the operations in between may raise; the read itself cannot return anything else) -/
+theorem C21_attr_repeat (cfg : Cfg) (g : Bool) (s s1 : Sess) (db1 : Db) (c : Nat) (a : Attr) (v : Val)
+    (h : exec cfg g s db1 (.readAttr c a) = (s1, .val v)) (hnv : cfg.volatile a = false)
+    (tr : List (Db × Op)) (db2 : Db) :
+    (exec cfg g (runS cfg g s1 tr) db2 (.readAttr c a)).2 = .val v := by
+  obtain ⟨hp, hv, hr⟩ := C21_read_observes cfg g s s1 db1 c a v h
+  obtain ⟨hp2, h2⟩ := run_frozen cfg g tr s1 c hp
+  obtain ⟨_, hv2⟩ := h2 a (hr hnv)
+  have hok := (readCore_spec cfg g (runS cfg g s1 tr) db2 c a).2.2 hp2 v (by rw [hv2, hv])
+  simp only [exec]
+  split
+  · rename_i heq; rw [heq] at hok; simp at hok
+  · rename_i s2 w heq
+    rw [heq] at hok
+    simp only [Except.ok.injEq] at hok
+    rw [hok]
+
+/-- the same through `x in p.kids` ([SetInstance.__contains__] reads the item's reference) -/
+theorem C21_contains_repeat (cfg : Cfg) (g : Bool) (s s1 : Sess) (db1 : Db) (c : Nat) (v : Val)
+    (h : exec cfg g s db1 (.readAttr c refAttr) = (s1, .val v)) (hnv : cfg.volatile refAttr = false)
+    (tr : List (Db × Op)) (db2 : Db) (p : Nat) :
+    (exec cfg g (runS cfg g s1 tr) db2 (.contains p c)).2 = .bool (v == (p : Int)) := by
+  obtain ⟨hp, hv, hr⟩ := C21_read_observes cfg g s s1 db1 c refAttr v h
+  obtain ⟨hp2, h2⟩ := run_frozen cfg g tr s1 c hp
+  obtain ⟨_, hv2⟩ := h2 refAttr (hr hnv)
+  have hok := (readCore_spec cfg g (runS cfg g s1 tr) db2 c refAttr).2.2 hp2 v (by rw [hv2, hv])
+  simp only [exec]
+  split
+  · rename_i heq; rw [heq] at hok; simp at hok
+  · rename_i s2 w heq
+    rw [heq] at hok
+    simp only [Except.ok.injEq] at hok
+    rw [hok]
+
+/-- **loud**: when `_db_set_` accepts a re-fetched row without raising, every attribute whose read bit is set has the
+    database value the session already holds in `_dbvals_` -/
+theorem C21_reload_detects (g : Bool) (s : Sess) (cid : Nat) (avdict : List (Attr × Val))
+    (hok : (dbSetObj g s cid avdict).2 = none) (a : Attr) (nv : Val) (hm : (a, nv) ∈ avdict)
+    (hr : (s.c cid).rbits a = true) : (s.c cid).dbvals a = some nv := by
+  unfold dbSetObj at hok
+  simp only at hok
+  have h2 := (loop2_spec g cid (avdict.filter (fun x => !((s.c cid).dbvals x.1 == some x.2))) s).2
+  split at hok
+  · simp at hok
+  · rename_i s1 heq
+    have hnr := h2 (by rw [heq])
+    by_cases hd : (s.c cid).dbvals a = some nv
+    · exact hd
+    · have : (a, nv) ∈ avdict.filter (fun x => !((s.c cid).dbvals x.1 == some x.2)) := by
+        simp [List.mem_filter, hm, hd]
+      have := hnr _ this
+      simp only at this
+      rw [hr] at this; cases this
+
+/-- **fully loaded collections are frozen** (current code; any state, database, operation) -/
+theorem C21_step_full (cfg : Cfg) (s : Sess) (db : Db) (op : Op) (p : Nat) (sd : SetData)
+    (hk : s.kids p = some sd) (hf : sd.full = true) :
+    ∃ sd', (exec cfg true s db op).1.kids p = some sd' ∧ sd'.full = true ∧ sd'.items = sd.items :=
+  exec_full cfg s db op p sd hk hf
+
+/-- what a successful iteration / `len` / `is_empty() = True` establishes: the collection is fully loaded and the
+    result describes its items -/
+theorem C21_iter_observes (cfg : Cfg) (g : Bool) (s s1 : Sess) (db : Db) (p : Nat) (l : List Nat)
+    (h : exec cfg g s db (.iter p) = (s1, .objs l)) : ∃ sd, s1.kids p = some sd ∧ sd.full = true ∧ sd.items = l := by
+  have hs := (loadColl_spec cfg g s db p).1
+  simp only [exec] at h
+  split at h
+  · simp at h
+  · rename_i s2 heq
+    rw [heq] at hs
+    obtain ⟨sd, hk, hf⟩ := hs rfl
+    simp only at hk
+    rw [hk] at h
+    simp only [Prod.mk.injEq, Res.objs.injEq] at h
+    obtain ⟨rfl, rfl⟩ := h
+    exact ⟨sd, by rw [markItems_kids]; exact hk, hf, rfl⟩
+
+theorem C21_len_observes (cfg : Cfg) (g : Bool) (s s1 : Sess) (db : Db) (p : Nat) (n : Nat)
+    (h : exec cfg g s db (.len p) = (s1, .num n)) : ∃ sd, s1.kids p = some sd ∧ sd.full = true ∧ sd.items.length = n := by
+  have hs := (loadColl_spec cfg g s db p).1
+  simp only [exec] at h
+  split at h
+  · simp at h
+  · rename_i s2 heq
+    rw [heq] at hs
+    obtain ⟨sd, hk, hf⟩ := hs rfl
+    simp only at hk
+    rw [hk] at h
+    simp only [Prod.mk.injEq, Res.num.injEq] at h
+    obtain ⟨rfl, rfl⟩ := h
+    exact ⟨sd, hk, hf, rfl⟩
+
+/-- **C21, collections** (current code, all histories, all adversary choices): once a collection is fully loaded with
+    items `sd.items`, after ANY further operations interleaved with ANY committed changes, iteration returns exactly these
+    items, `len` their number, `is_empty` whether there are none -/
+theorem C21_full_collection_stable (cfg : Cfg) (s : Sess) (p : Nat) (sd : SetData)
+    (hk : s.kids p = some sd) (hf : sd.full = true) (tr : List (Db × Op)) (db : Db) :
+    (exec cfg true (runS cfg true s tr) db (.iter p)).2 = .objs sd.items ∧
+    (exec cfg true (runS cfg true s tr) db (.len p)).2 = .num sd.items.length ∧
+    (exec cfg true (runS cfg true s tr) db (.isEmpty p)).2 = .bool sd.items.isEmpty := by
+  obtain ⟨sd2, hk2, hf2, hi2⟩ := run_full cfg tr s p sd hk hf
+  have hl := (loadColl_spec cfg true (runS cfg true s tr) db p).2 sd2 hk2 hf2
+  refine ⟨?_, ?_, ?_⟩
+  · simp only [exec, hl, hk2, hi2]
+  · simp only [exec, hl, hk2, hi2]
+  · simp only [exec, hk2, hf2, if_true, hi2]
+
+/-- iteration observed `l` ⇒ every later iteration returns `l`, every later `len` returns `l.length` -/
+theorem C21_iter_repeat (cfg : Cfg) (s s1 : Sess) (db1 : Db) (p : Nat) (l : List Nat)
+    (h : exec cfg true s db1 (.iter p) = (s1, .objs l)) (tr : List (Db × Op)) (db2 : Db) :
+    (exec cfg true (runS cfg true s1 tr) db2 (.iter p)).2 = .objs l ∧
+    (exec cfg true (runS cfg true s1 tr) db2 (.len p)).2 = .num l.length := by
+  obtain ⟨sd, hk, hf, rfl⟩ := C21_iter_observes cfg true s s1 db1 p l h
+  have := C21_full_collection_stable cfg s1 p sd hk hf tr db2
+  exact ⟨this.1, this.2.1⟩
+
+/-- `len` observed `n` ⇒ every later `len` returns `n` and every later iteration returns `n` items -/
+theorem C21_len_repeat (cfg : Cfg) (s s1 : Sess) (db1 : Db) (p : Nat) (n : Nat)
+    (h : exec cfg true s db1 (.len p) = (s1, .num n)) (tr : List (Db × Op)) (db2 : Db) :
+    (exec cfg true (runS cfg true s1 tr) db2 (.len p)).2 = .num n ∧
+    ∃ l, (exec cfg true (runS cfg true s1 tr) db2 (.iter p)).2 = .objs l ∧ l.length = n := by
+  obtain ⟨sd, hk, hf, hn⟩ := C21_len_observes cfg true s s1 db1 p n h
+  have := C21_full_collection_stable cfg s1 p sd hk hf tr db2
+  exact ⟨by rw [this.2.1, hn], sd.items, this.1, hn⟩
+
+/-! ### the code before fix 6b92706 (`Set.db_reverse_remove` without the phantom check) -/
+
+def wCfg : Cfg := ⟨[0, 1], fun _ => false, fun _ => false⟩
+/-- children 1 and 2 of parent 1 -/
+def wDb1 : Db := [(1, [(0, 1), (1, 10)]), (2, [(0, 1), (1, 20)])]
+/-- another session moved child 1 to parent 2 -/
+def wDb2 : Db := [(1, [(0, 2), (1, 10)]), (2, [(0, 1), (1, 20)])]
+/-- `len(p1.kids)`; [concurrent UPDATE]; re-fetch both rows; `len(p1.kids)` -/
+def wTrace : List (Db × Op) := [(wDb1, .len 1), (wDb2, .fetch [1, 2] none [0, 1]), (wDb2, .len 1)]
+
+/-- the statement "a `len` that was observed is repeated or the history raises" for the unguarded code … -/
+def C21_len_repeat_unguarded_full : Prop :=
+  ∀ (cfg : Cfg) (tr : List (Db × Op)) (p n m : Nat) (db1 db2 : Db) (s1 : Sess),
+    exec cfg false Sess.init db1 (.len p) = (s1, .num n) →
+    (∀ r, r ∈ (run cfg false s1 tr).2 → ∀ e, r ≠ .err e) →
+    (exec cfg false (runS cfg false s1 tr) db2 (.len p)).2 = .num m → m = n
+
+/-- … is FALSE: witness (this is what fix 6b92706 repaired; the engine replays it on the real code on every run) -/
+theorem C21_len_repeat_unguarded_full_false : ¬ C21_len_repeat_unguarded_full := by
+  intro h
+  have hres : (run wCfg false (exec wCfg false Sess.init wDb1 (.len 1)).1 [(wDb2, .fetch [1, 2] none [0, 1])]).2
+      = [.objs [1, 2]] := by decide
+  have := h wCfg [(wDb2, .fetch [1, 2] none [0, 1])] 1 2 1 wDb1 wDb2 (exec wCfg false Sess.init wDb1 (.len 1)).1
+    (Prod.ext rfl (by decide))
+    (by intro r hr e; rw [hres] at hr; simp only [List.mem_singleton] at hr; subst hr; simp)
+    (by decide)
+  cases this
+
+/-- the same history on the current code: the re-fetch raises UnrepeatableReadError -/
+theorem C21_witness_guarded : (run wCfg true Sess.init wTrace).2 = [.num 2, .err .unrepeatable, .num 2] := by decide
+
+/-- partial theorem for the unguarded code: whatever was observed by ITERATION is protected by the read bits that
+    [Set.copy] sets on every item's reference (`Frozen`), independent of the phantom check -/
+theorem C21_iter_items_keep_reference (cfg : Cfg) (g : Bool) (s s1 : Sess) (db1 : Db) (c : Nat) (v : Val)
+    (h : exec cfg g s db1 (.readAttr c refAttr) = (s1, .val v)) (hnv : cfg.volatile refAttr = false)
+    (tr : List (Db × Op)) :
+    ((runS cfg g s1 tr).c c).vals refAttr = some v := by
+  obtain ⟨hp, hv, hr⟩ := C21_read_observes cfg g s s1 db1 c refAttr v h
+  obtain ⟨_, h2⟩ := run_frozen cfg g tr s1 c hp
+  rw [(h2 refAttr (hr hnv)).2, hv]
+
+/-- the hypotheses of the repeat theorems are satisfiable: a read that succeeds, a collection that loads -/
+example : (exec wCfg true Sess.init wDb1 (.len 1)).2 = .num 2 := by decide
+example : (run wCfg true Sess.init [(wDb1, .fetch [1] none [0, 1]), (wDb1, .readAttr 1 1)]).2 = [.objs [1], .val 10] := by decide
 
 end PonyVerif.Props.C21
